@@ -49,7 +49,8 @@ _interp("C06", "Theorems C06_*: continue / break abandon the rest of the iterati
 _interp("C07", "Theorems C07_*: a classic switch runs the body of the first case whose comparison holds and looks at nothing after it; with no match only the first default runs.",
         "220 programs quick / 2500 thorough")
 _interp("C14", "Theorems C14_*: Reset leaves a new context except the verdict cell bufBl, and lookups, comparisons and argument vectors never read the incoming scratch cells. Job sequences on one context are run on the real decoder and compared job by job with the model and, as a direct oracle, with a newly created context.",
-        "160 job sequences quick / 1800 thorough")
+        "160 job sequences + 300 pool histories quick / 1800 + 5000 thorough")
+PROPS["C14"]["case_modules"] = ["theories/CasesInterp.v", "theories/CasesPool.v"]
 _interp("C15", "Theorems C15_*: a failing rule ends the rule sequence, the loop body, the counter loop and the range loop at once with its error, and the loop statement returns it; missing helpers and non-numeric bounds are errors. For generated programs every k-th user call is made to fail on the real decoder; oracle: Decode returns that error and the call trace is the fault-free prefix.",
         "320 runs quick / 4000 thorough (every k up to 12 per program)")
 _interp("C16", "The model has no panic outcome: every list access of the decode path is a guarded match, arity errors are errors (C16_* theorems). That the code has no further panic site is decided by running parser-accepted programs from a malformed stream on the real decoder under recover and a watchdog (direct oracle) and comparing with the model.",
